@@ -148,9 +148,12 @@ class History:
         sm = self.sm
         is_ang = isinstance(o, sm.AngleBase)
         vals = self.raw(o)
-        if any(abs(v) > 1e12 for v in vals):
+        if not all(abs(v) < 1e300 for v in vals):   # inf / nan have no decimal form
             return
-        for label, text, sep in (('str', str(o), ' '), ('join', o.join(', '), ', '), ('join;', o.join(';'), ';')):
+        if any(abs(v) > 1e12 for v in vals):
+            self.run.count('text_forms_of_large_magnitudes')
+        for label, text, sep in (('str', str(o), ' '), ('join', o.join(', '), ', '), ('join;', o.join(';'), ';'),
+                                 ('format', format(o, ''), ' '), ('f-string', f'{o}', ' ')):
             parts = text.split(sep)
             self.run.count('text_forms_checked')
             if len(parts) != 3:
@@ -548,6 +551,8 @@ class History:
             self.fail(f'{how} of a {type(o).__name__} is not equal to its source', 'copy-not-equal',
                       {'source': self.raw(o), 'copy': self.raw(c), 'type': type(c).__name__})
             return
+        if not self.lib_equal(c, o, how):
+            return
         mutable = isinstance(o, (sm.Vec, sm.Angle, sm.Matrix))
         if mutable:
             if c is o:
@@ -559,6 +564,28 @@ class History:
                 self.fail(f'mutating a {how} changed the source', 'copy-aliases-source', {'before': before, 'after': self.raw(o)})
         self.log.append(f'{how} of {type(o).__name__}')
         self.add(c)
+
+    def lib_equal(self, c, o, how: str) -> bool:
+        """"equal to its source" as the library itself answers it: ==, != in both directions, and hash() where there is one."""
+        import math as _m
+        if any(_m.isnan(v) for v in self.raw(o)):
+            return True
+        self.run.count('library_equality_evaluations')
+        eq = (c == o, o == c, c != o, o != c)
+        if eq != (True, True, False, False):
+            self.fail(f'{how} of a {type(o).__name__}: (c == o, o == c, c != o, o != c) is {eq}', 'copy-not-equal',
+                      {'source': self.raw(o), 'copy': self.raw(c)})
+            return False
+        if type(c) is type(o):
+            try:
+                ho = hash(o)
+            except TypeError:
+                return True
+            if hash(c) != ho:
+                self.fail(f'{how} of a {type(o).__name__} is equal to its source but hashes differently', 'copy-not-equal',
+                          {'source': self.raw(o), 'copy': self.raw(c)})
+                return False
+        return True
 
     def mutate(self, o) -> None:
         sm, rng = self.sm, self.rng
@@ -586,6 +613,8 @@ class History:
         if type(f) is not want or self.raw(f) != self.raw(o):
             self.fail(f'{"freeze" if mutable else "thaw"}() of {type(o).__name__} is not equal to its source', 'copy-not-equal',
                       {'source': self.raw(o), 'result': self.raw(f)})
+            return
+        if not self.lib_equal(f, o, 'freeze' if mutable else 'thaw'):
             return
         self.add(f)
         # independence: mutate the mutable side, the other must not move
@@ -759,7 +788,7 @@ def main(run, shard=(0, 1)) -> None:
         # the repository's own tests as an additional workload, with runtime contracts attached (rv/contracts.py)
         from rv.repo_tests_engine import run_repo_tests_with_contracts
         run_repo_tests_with_contracts(run, 'C05', ['test_angles.py', 'test_matrix.py', 'test_rotations.py', 'test_vec.py', 'test_instancing.py', 'test_vmf.py'] if run.tier == 'thorough' else ['test_angles.py', 'test_instancing.py'])
-    run.require('invariant_evaluations', 'angles_seen_by_return_probe', 'text_forms_checked', 'copies_checked', 'freeze_thaw_checked')
+    run.require('invariant_evaluations', 'angles_seen_by_return_probe', 'text_forms_checked', 'text_forms_of_large_magnitudes', 'library_equality_evaluations', 'copies_checked', 'freeze_thaw_checked')
 
 
 def replay(run, data) -> None:
